@@ -170,6 +170,12 @@ def value_sets(params, rng, w, n, nm, nrand):
     sets = [("all p-1", per(lambda p, i: p - 1), per(lambda p, i: p - 1), per(lambda p, i: p - 1)),
             ("a+b = p", None, None, None), ("zeros/ones", per(lambda p, i: 0), per(lambda p, i: 1), per(lambda p, i: 0))]
     a = R(); sets[1] = ("a+b = p, c = a", a, [[(p - x) % p for x in row] for p, row in zip(ps, a)], a)
+    # operands on the rounding boundary of a precomputed quotient: b * 2^w = -s (mod p) for small s (floor(b*2^w/p) is then one below an
+    # exact multiple: any quotient computed with less than full precision rounds up there), and a with a*b = -1 (mod p)
+    B = 1 << w
+    bb = [[(-(1 + (i % 8))) * pow(B % p, p - 2, p) % p for i in range(n)] for p in ps]
+    aa = [[(p - pow(x, p - 2, p)) % p if x else 1 for x in row] for p, row in zip(ps, bb)]
+    sets.append(("quotient rounding boundary b*2^w = -s mod p, a*b = -1", aa, bb, per(lambda p, i: p - 1 - i)))
     for _ in range(nrand): sets.append(("random", R(), R(), R()))
     return sets
 
